@@ -952,7 +952,7 @@ def to_rx_writer(rng, w, holes=True, idmap_mode=None):
 
 # --- graphs every backend can hold: a small fixed family of (names, dtypes) so that spatial_graph compiles few classes ---
 SG_TEMPLATES = {
-    "T1": {"axes": ["x"], "axk": "float", "nattrs": {}, "eattrs": {}},
+    "T1": {"axes": ["t"], "axk": "int", "nattrs": {}, "eattrs": {}},
     "T2": {"axes": ["x", "y"], "axk": "float", "nattrs": {"a": ("int", None)}, "eattrs": {"w": ("float", None)}},
     "T3": {"axes": ["t", "y", "x"], "axk": "int", "nattrs": {"vec": ("int", 2)}, "eattrs": {}},
     "T4": {"axes": ["x"], "axk": "float", "nattrs": {"a": ("int", None), "score": ("float", None)}, "eattrs": {"w": ("int", None), "ev": ("float", 2)}},
@@ -1174,7 +1174,8 @@ def generate(rng: random.Random, tier: str):
             for r in (["mem", "nx", "rx"] if i % 4 == 1 else [rng.choice(["nx", "rx"])]):
                 out.append(case(wr, r, rng.choice([2, 3])))
     # ---- graphs in the common domain of the three backends: every ordered backend pair x zarr format ----
-    tnames = ["T1", "T2", "T3"] + ([] if quick else ["T4"])
+    # spatial_graph compiles one extension module per signature (~1 min each on a cold witty cache): the quick tier keeps to T1 / T2
+    tnames = ["T1", "T2"] + ([] if quick else ["T3", "T4"])
     reps = 3 if quick else 14
     for tname in tnames:
         for directed in (True, False):
@@ -1199,7 +1200,7 @@ def generate(rng: random.Random, tier: str):
                 for r in ("nx", "rx", "sg"):
                     out.append(case(wm, r, fmt))
     # other dtypes through spatial-graph (each is a separately compiled class: few of them)
-    variants = [("T2", "uint8", "float32", "int16")] + ([] if quick else [("T2", "int32", "float64", "uint16"), ("T3", "uint16", "float64", "int32"), ("T1", "int64", "float32", "int64")])
+    variants = [] if quick else [("T2", "uint8", "float32", "int16"), ("T2", "int32", "float64", "uint16"), ("T3", "uint16", "float64", "int32"), ("T1", "int64", "float32", "int64")]
     for tname, ndt, fdt, idt in variants:
         for directed in (True, False) if not quick else (True,):
             for k in range(2 if quick else 5):
@@ -1215,7 +1216,7 @@ def generate(rng: random.Random, tier: str):
         for r in ("nx", "rx"):
             out.append(case(wm, r, 2))
     for i in range(6 if quick else 40):
-        wm = mem_from_template(rng, rng.choice(["T2", "T3"]), rng.random() < 0.5, missing=True)
+        wm = mem_from_template(rng, "T2" if quick else rng.choice(["T2", "T3"]), rng.random() < 0.5, missing=True)
         for r in ("nx", "rx", "sg"):
             out.append(case(wm, r, 2))
     # ---- empty graphs ----
@@ -1309,12 +1310,13 @@ def malformed(rng, quick):
     out.append(case(base([[1, {"a": 1}], [2, {"a": 2}]]), "sg", 2))                                   # no axes
     out.append(case(base([[1, {"x": 1.0, "f": True}], [2, {"x": 2.0, "f": False}]], axes=["x"]), "sg", 2))  # bool attribute
     out.append(case(base([[1, {"x": 1.0, "s": "a"}], [2, {"x": 2.0, "s": "b"}]], axes=["x"]), "sg", 2))
-    out.append(case(base([[1, {"x": 1.0, "a": 7}], [2, {"x": 2.0}]], [[[1, 2], {}]], axes=["x"]), "sg", 2))      # missing value shows its fill
     out.append(case(base([[1, {"x": 1.0, "a": [1, 2]}], [2, {"x": 2.0, "a": [3]}]], axes=["x"]), "sg", 2))  # var-length
-    out.append(case(base([[1, {"x": 1.0, "position": 7}], [2, {"x": 2.0, "position": 8}]], axes=["x"]), "sg", 2))
-    out.append(case(base([[1, {"x": 1.0, "position": 7}], [2, {"x": 2.0, "position": 8}]], [[[1, 2], {}]], axes=["x"]), "sg", 2, pos="pos"))
-    out.append(case(base([[1, {"x": 1.0, "y": 2}], [2, {"x": 2.0, "y": 3}]], [[[1, 2], {}]], axes=["x", "y"]), "sg", 2))  # axes of two dtypes
-    out.append(case(base([[1, {"x": 1, "m": [[1, 2], [3, 4]]}], [2, {"x": 2, "m": [[5, 6], [7, 8]]}]], axes=["x"]), "sg", 2))  # rank-3 property
+    out.append(case(base([[1, {"x": 1.0, "position": 7}], [2, {"x": 2.0, "position": 8}]], axes=["x"]), "sg", 2))   # same class as T1
+    if not quick:   # each of these instantiates its own spatial_graph class
+        out.append(case(base([[1, {"x": 1.0, "a": 7}], [2, {"x": 2.0}]], [[[1, 2], {}]], axes=["x"]), "sg", 2))      # missing value shows its fill
+        out.append(case(base([[1, {"x": 1.0, "position": 7}], [2, {"x": 2.0, "position": 8}]], [[[1, 2], {}]], axes=["x"]), "sg", 2, pos="pos"))
+        out.append(case(base([[1, {"x": 1.0, "y": 2}], [2, {"x": 2.0, "y": 3}]], [[[1, 2], {}]], axes=["x", "y"]), "sg", 2))  # axes of two dtypes
+        out.append(case(base([[1, {"x": 1, "m": [[1, 2], [3, 4]]}], [2, {"x": 2, "m": [[5, 6], [7, 8]]}]], axes=["x"]), "sg", 2))  # rank-3 property
     # in-memory geffs that are not well formed
     wm = mem_from_template(rng, "T2", True, n=3)
     bad = copy.deepcopy(wm)
